@@ -12,6 +12,10 @@ def run(res, tier):
     # it must read the client's stream intact from the first unconsumed byte (clause L3 of L4ListenerAbs)
     import check_c13
     check_c13.add_to(res, tier, ("L3",), "C01")
+    # connections through ONE real Server (Server.handle: the matching buffer comes from a pool that prefetch's scratch
+    # chunks go back to): every connection's handlers read that connection's own stream, from its first byte (clause X2)
+    import check_c08
+    check_c08.conc_add_to(res, tier, ("X2",), "C01")
     res.coverage["checker_cmd"] = "tlc L4Router_MC.tla (c01: shipped wrapping handlers, real sizes) + vdrive router-replay/router-random + tlc L4RouterTrace.tla"
 
 
